@@ -47,21 +47,37 @@ structure RevertInput where
 /-- `balances[account]` exists (account-level presence of the nested Go map). -/
 def hasAccount (b : Balances) (account : String) : Bool := b.any (fun e => e.1.1 == account)
 
-/-- First loop of the non-forced check: debit the source of every reversed posting,
-    credit its destination when the destination account is present in `balances`.
-    `x.Add(…)` on a missing (`nil`) `*big.Int` panics. -/
-def revertApply : Balances → List Posting → Except Err Balances
+/-- Which version of the non-forced balance check of `revertTransaction`:
+    `current` — the code in the tree: the destination of a reversed posting is credited when
+    `balances[destination][asset]` exists;
+    `preFix` — the code before commit fe6217d: it was credited when `balances[destination]`
+    (the account) existed, dereferencing a nil `*big.Int` when that account was only tracked
+    in other assets. -/
+inductive RevertCheck where
+  | preFix
+  | current
+  deriving DecidableEq, Repr, Inhabited
+
+/-- First loop of the non-forced check: debit the source of every reversed posting, credit
+    its destination when it is tracked in `balances`.  `x.Add(…)` on a missing (`nil`)
+    `*big.Int` panics. -/
+def revertApply (v : RevertCheck) : Balances → List Posting → Except Err Balances
   | b, [] => .ok b
   | b, p :: ps =>
     match b.get? p.srcKey with
     | none => .error .nilDeref
     | some _ =>
       let b1 := b.adjust p.srcKey (· - p.amount)
-      if hasAccount b1 p.destination then
-        match b1.get? p.dstKey with
-        | none => .error .nilDeref
-        | some _ => revertApply (b1.adjust p.dstKey (· + p.amount)) ps
-      else revertApply b1 ps
+      match v with
+      | .preFix =>
+        if hasAccount b1 p.destination then
+          match b1.get? p.dstKey with
+          | none => .error .nilDeref
+          | some _ => revertApply v (b1.adjust p.dstKey (· + p.amount)) ps
+        else revertApply v b1 ps
+      | .current =>
+        if b1.contains p.dstKey then revertApply v (b1.adjust p.dstKey (· + p.amount)) ps
+        else revertApply v b1 ps
 
 /-- Second loop: some non-`world` account ends below zero. -/
 def anyOverdrawn (b : Balances) : Bool := b.any (fun e => decide (e.2 < 0) && e.1.1 != "world")
@@ -81,7 +97,7 @@ def revertTxOf (orig : Tx) (inp : RevertInput) (ts : Option Int) (id : Nat) : Tx
 /-- `revertTransaction` between `store.RevertTransaction` and `store.CommitTransaction`:
     `orig` is the row the store returned (id and `reverted_at` set by the store),
     `balances` what `GetBalances(orig.InvolvedDestinations())` returned. -/
-def buildRevertTx (orig : Tx) (inp : RevertInput) (balances : Balances) : Except Err Tx :=
+def buildRevertTxV (v : RevertCheck) (orig : Tx) (inp : RevertInput) (balances : Balances) : Except Err Tx :=
   match revertTimestamp orig inp.atEffectiveDate with
   | .error e => .error e
   | .ok ts =>
@@ -89,9 +105,13 @@ def buildRevertTx (orig : Tx) (inp : RevertInput) (balances : Balances) : Except
     | none => .error .nilDeref
     | some id =>
       if inp.force then .ok (revertTxOf orig inp ts id)
-      else match revertApply balances (reversePostings orig.postings) with
+      else match revertApply v balances (reversePostings orig.postings) with
         | .error e => .error e
         | .ok b => if anyOverdrawn b then .error .insufficientFunds else .ok (revertTxOf orig inp ts id)
+
+/-- The code in the tree. -/
+def buildRevertTx (orig : Tx) (inp : RevertInput) (balances : Balances) : Except Err Tx :=
+  buildRevertTxV .current orig inp balances
 
 /-- `tx.InvolvedDestinations()` as a flat sorted key list (destination, asset), deduplicated. -/
 def involvedDestinations (ps : List Posting) : List Key :=
